@@ -1,0 +1,17 @@
+//go:build verif
+
+package asn1
+
+import "time"
+
+// Verification hooks (C18/C19/C21 time values): thin exported wrappers around the
+// unexported UTCTime / GeneralizedTime content parsers and encoders. Built only
+// with -tags verif.
+
+func ZVParseUTCTime(b []byte) (time.Time, error)         { return parseUTCTime(b) }
+func ZVParseGeneralizedTime(b []byte) (time.Time, error) { return parseGeneralizedTime(b) }
+func ZVAppendUTCTime(t time.Time) ([]byte, error)        { return appendUTCTime(nil, t) }
+func ZVAppendGeneralizedTime(t time.Time) ([]byte, error) {
+	return appendGeneralizedTime(nil, t)
+}
+func ZVOutsideUTCRange(t time.Time) bool { return outsideUTCRange(t) }
